@@ -67,6 +67,13 @@ def curated():
                          F("s", dict(k="strleaf")), F("dn", dict(k="deny", tid=6))]))
     # 6. compound leaves (arrays / tuples / Option inside one Leaf): partially valid payloads
     out.append(ST("C6", [F("p", L(12)), F("q", L(14)), F("o", L(11)), F("s", L(13)), F("g", G("Option", L(12))), F("a", A(2, L(14)))]))
+    # 7. 21 levels of 8-field structs (3 bits each): the packed keys of the deepest leaves need exactly 63 bits
+    #    (all of a Packed word); one leaf position one level further down (64 bits) does not fit
+    def wide(k):
+        if k == 0:
+            return ST("C7_0", [F("f0", L(3))] + [F("f%d" % i, (ST("C7x", [F("p", L(1)), F("q", L(9))]) if i == 5 else L(1 + i % 9))) for i in range(1, 8)])
+        return ST("C7_%d" % k, [F("f0", wide(k - 1))] + [F("f%d" % i, L(1 + (i + k) % 9)) for i in range(1, 8)])
+    out.append(wide(20))
     res = []
     for t in out:
         res.append((t, [S.value(rng, t) for _ in range(2)]))
